@@ -21,6 +21,21 @@ def refs_in(c, acc):
         acc.add(c.obj)
 
 
+def reach_globals(ex, p):
+    """objects reachable from package-level variables (through pointers stored in them)"""
+    seen = set()
+    work = [o for o, m in ex.meta.items() if m.kind == "global" and o in p.heap]
+    while work:
+        o = work.pop()
+        if o in seen or o not in p.heap:
+            continue
+        seen.add(o)
+        acc = set()
+        refs_in(p.heap[o], acc)
+        work.extend(acc)
+    return seen
+
+
 def analyse(base, chk, fname):
     r = sweep.run_api(base, chk, fname, log_reads=True)
     ex = r.ex
@@ -66,6 +81,14 @@ def analyse(base, chk, fname):
                         bad_global.append((m.name if m else oid, ev[2]))
         chk.fact("%s%s: writes no package-level state (except the Once-guarded tables, inside their initialiser)" % (label, tag), not bad_global, [fname], "effects", detail=str(bad_global[:3]))
         chk.fact("%s%s: writes no non-receiver argument" % (label, tag), not bad_arg, [fname], "effects", detail=str(bad_arg[:3]))
+        # ---- no result may point into package-level state (a caller mutating it would change later results)
+        resobjs = set()
+        refs_in(list(p.outcome[1]), resobjs)
+        glob = [o for o in resobjs if o in r.pre_objs and o not in argobjs and (ex.meta[o].kind == "global" or o in reach_globals(ex, p))]
+        chk.fact("%s%s: no returned pointer/slice refers to package-level storage" % (label, tag), not glob, [fname], "effects", detail=str([ex.meta[o].name for o in glob][:3]))
+        if base.prog.fn(fname)["short"] in ("Bytes", "BytesMontgomery", "Equal", "ExtendedCoordinates", "IsNegative") and recv is not None:
+            wr = [ev for ev in p.log if ev[0] == "w" and ev[1] == recv.obj]
+            chk.fact("%s%s: a read-only operation does not write its receiver" % (label, tag), not wr, [fname], "effects", detail=str(wr[:2]))
         # ---- freshness of results
         if fname in FRESH:
             res = set()
